@@ -92,6 +92,7 @@ type scheduler struct {
 	Deadlock bool
 	sleep    map[int]bool // sleep set (thread ids) at the current schedule point
 	Pruned   bool
+	inlineGo bool
 }
 
 func newSched(i *interpreter, maxPre int) *scheduler {
